@@ -23,7 +23,7 @@ class P:
     id = "C06"
     rule = ("inputs: valid programs, one syntax error, a parser error followed by a later lexer error, here-documents (incl. with a failing parser), nested "
             "command substitutions, truncated constructs; arithmetic expressions with several faults and assignments, invalid characters; generated "
-            "programs and their mutants; each under N perturbation seeds (quick 12, thorough 200) x GOMAXPROCS {1,2,16}. Non-trivial = input with >= 3 "
+            "programs and their mutants; each under N perturbation seeds (quick 12, thorough 48) x GOMAXPROCS {1,2,16}. Non-trivial = input with >= 3 "
             "tokens; distinct (input, GOMAXPROCS) pairs counted")
     assumptions = ["interleavings are forced by perturbation (yield / sleep) at the hook points, not enumerated exhaustively; exhaustive interleavings are covered by the protocol model's theorems",
                    "the race detector build (go build -race) needs cgo; when it cannot be built that part is absent and the evidence says so"]
@@ -33,8 +33,8 @@ class P:
     def parts(self, seed, tier, C):
         rnd = random.Random(seed)
         g = G.Gen(rnd)
-        nseeds = 12 if tier == "quick" else 200
-        progs = [g.program(rnd.choice([1, 2])) for _ in range(60 if tier == "quick" else 1500)]
+        nseeds = 12 if tier == "quick" else 48
+        progs = [g.program(rnd.choice([1, 2])) for _ in range(60 if tier == "quick" else 400)]
         muts = [G.mutate_tokens(rnd, p) for p in progs]
         # inputs that end without a newline, in the middle of a construct or of a here-document region, alone and after a
         # parser-side error: both goroutines have something to report at the end of input
@@ -50,7 +50,7 @@ class P:
             for k in sorted(set(range(0, len(src) + 1, max(1, len(src) // 12)))):
                 pc.append("p\t%s\t%d\t%d" % (hx(src), k, nseeds))
         ec = ["e\t%s\t%s\t%d" % (hx(e), ",".join("%s=%s" % (hx(k), hx(v)) for k, v in vs.items()), nseeds) for e, vs in EVAL_CORPUS]
-        for _ in range(60 if tier == "quick" else 2000):
+        for _ in range(60 if tier == "quick" else 600):
             toks = [rnd.choice(["x", "y", "1", "0", "(", ")", "+", "=", "/", "++", "$", "&&", "?", ":", "08", "abc", "-"]) for _ in range(rnd.randint(1, 9))]
             ec.append("e\t%s\t%s\t%d" % (hx(" ".join(toks)), "%s=%s" % (hx("abc"), hx("zz")), nseeds))
         parts = []
